@@ -300,7 +300,18 @@ def directed_cases(out, rng):
     def twice(x: Float[jax.Array, "a b"], a: Float[jax.Array, "b"], b: Int[jax.Array, "a"]) -> Float[jax.Array, "a*b 2*a"]:
         return jnp.zeros((x.shape[0] * x.shape[1], 2 * x.shape[0]), jnp.float32)
 
+    # `{…}` parts that look at an ARRAY argument (its length, shape, rank): a tracer answers these like the array it stands for
+    @jaxtyped(typechecker=tc)
+    def drop_last(x: Float[jax.Array, "n"]) -> Float[jax.Array, "{len(x)-1}"]:
+        return x[:-1]
+
+    @jaxtyped(typechecker=tc)
+    def outer(x: Float[jax.Array, "n"], y: Float[jax.Array, "m"]) -> Float[jax.Array, "{len(x)*len(y)} {x.ndim+y.shape[0]}"]:
+        return jnp.zeros((x.shape[0] * y.shape[0], 1 + y.shape[0]), jnp.float32)
+
     cases = [
+        ("axis computed from len(x)", drop_last, (f4,), "accept"),
+        ("axes computed from len / ndim / shape of two arguments", outer, (f3, f4), "accept"),
         ("parameter named like an axis, value 0", pad, (jnp.asarray(0, jnp.int32), f3), "accept"),
         ("parameter named like an axis, value 3", pad, (jnp.asarray(3, jnp.int32), f3), "accept"),
         ("parameter named like an axis, value 7", pad, (jnp.asarray(7, jnp.int32), f4), "accept"),
